@@ -159,9 +159,17 @@ int main(){
                 }
             }
         }
+        else if(op == "mark"){
+            std::cout << "M " << (ts.size() > 1 ? ts[1] : "") << "\n";
+        }
         else if(op == "build"){
-            cs.tree.reset(new Tree(*cs.config, cs.positions, kv(ts, "bs", 1), kv(ts, "mode", 0) != 0));
+            const long envbs = kv(ts, "env", -12345);
+            if(envbs != -12345) setenv("TBFMM_BLOCK_SIZE", std::to_string(envbs).c_str(), 1);
+            cs.tree.reset(new Tree(*cs.config, cs.positions, kv(ts, "auto", 0) ? -1 : kv(ts, "bs", 1), kv(ts, "mode", 0) != 0));
+            if(envbs != -12345) unsetenv("TBFMM_BLOCK_SIZE");
+            if(kv(ts, "auto", 0)) std::cout << "B " << cs.tree->getNbElementsPerGroup() << "\n";
             tagCells(*cs.tree);
+            Geom::original() = &cs.positions;
         }
         else if(op == "dump" && ts.size() > 1 && ts[1] == "structure"){
             dumpStructure(*cs.tree);
